@@ -331,7 +331,7 @@ fire("c08-extra-interceptor", ["C08"], SU,
      "    def map_call(self, expr):\n"
      "        return expr\n\n\n"
      "class CachedSubstitutionMapper(CachedIdentityMapper,",
-     "O/SubstitutionMapper/interceptors")
+     "F/SubstitutionMapper/map_call")
 fire("c08-cached-mro-loses-interceptors", ["C08"], SU,
      "class CachedSubstitutionMapper(CachedIdentityMapper,\n"
      "                               SubstitutionMapper):",
